@@ -27,7 +27,7 @@ Section MerkleProofs.
   Lemma list_ind2 (P : list hash -> Prop) :
     P [] -> (forall a, P [a]) -> (forall a b r, P r -> P (a :: b :: r)) -> forall l, P l.
   Proof.
-    intros H0 H1 H2'. fix IH 1. intros [|a [|b r]]; auto.
+    intros H0 H1 H2'. fix IH 1. intros [|a [|b r]]; [exact H0|exact (H1 a)|exact (H2' a b r (IH r))].
   Qed.
 
   (* ---------- H2 injective or collision ---------- *)
